@@ -246,7 +246,7 @@ def run_tables(spec, inputs=None):
     if i % 3 == 0:
         o["district"] = True
         o["must_aggregates"] = ["postal_code", "district", "unit"]
-    spec = dict(spec, o=o, polls=(3 if i % 5 == 4 else 0))
+    spec = dict(spec, o=o, polls=(3 if i % 5 == 4 else 0), shared_feed=bool(i % 10 == 4))
     if inputs is None:
         # partial units between 50 and 99 percent
         pass
